@@ -457,6 +457,7 @@ CHECKS = {
     'C06': {
         'level': 'model_checking',
         'jobs': [
+            C('link', 'TestLinkReal', 'TraceLink', env={'VERIF_LINK_PATS': 'pubsub,xpubxsub'}),   # every transport; the subscriber is a SUB context; held slices
             RS('xpub'), RS('xsub'),
             T('MC_Sub', 'Sub_quick.cfg'),
             T('MC_Sub', 'Sub_full.cfg', tiers=('thorough',)),
